@@ -1,4 +1,4 @@
-import FimVerif.Proofs.Lemmas.TopoAtomicComp
+import FimVerif.Proofs.Lemmas.TopoAtomicRemove
 /-!
 # C09 — a topology-building call that raises leaves the model unchanged
 
@@ -203,13 +203,43 @@ theorem atomic_addStorage (fl : Flavour) (c : Nat) (parent : Nid) (name : String
   refine ro_step (Q := FS s) (by ro) FS.err (fun _ _ => ?_)
   exact compNew_atomic fl c parent _ s hfresh hnid ⟨rfl, rfl⟩
 
+/-! ## disconnect_interface / remove_interface: everything before `remove_cp_and_links` only reads, and
+`remove_cp_and_links` itself deletes distinct, existing nodes after its last read -/
+
+theorem atomic_disconnectInterface (cache : Cache) (i : IfArg) (s : Topo) (hd : IdsDistinct s)
+    (hf : failed (disconnectInterface cache i s)) : (disconnectInterface cache i s).2 = s := by
+  revert hf
+  unfold disconnectInterface
+  cases i with
+  | bogus => exact FS.err _
+  | iface iid nm =>
+    simp only []
+    refine ro_step (Q := FS s) (by ro) FS.err (fun all _ => ?_)
+    refine ro_step (Q := FS s) (by ro) FS.err (fun pn _ => ?_)
+    cases List.map (fun x => x.nid) (List.filter (fun n => n.typ == "ServicePort") pn) with
+    | nil => intro hf; simp at hf
+    | cons p rest =>
+      simp only []
+      refine ro_step (Q := FS s) (by ro) FS.err (fun _ _ => ?_)
+      exact FS_bind_pure (removeCpAndLinks_atomic _ true s hd)
+
+theorem atomic_removeInterface (fl : Flavour) (svc : Nid) (name : String) (s : Topo) (hd : IdsDistinct s)
+    (hf : failed (nsRemoveInterface fl svc name s)) : (nsRemoveInterface fl svc name s).2 = s := by
+  revert hf
+  unfold nsRemoveInterface
+  refine ro_step (Q := FS s) (by ro) FS.err (fun _ _ => ?_)
+  refine ro_step (Q := FS s) (by ro) FS.err (fun _ _ => ?_)
+  refine ro_step (Q := FS s) (by ro) FS.err (fun _ _ => ?_)
+  exact removeCpAndLinks_atomic _ true s hd
+
 /-! ## one theorem over the op alphabet
 
 `Covered op s` is the explicit guard: the calls whose atomicity is proved, with the hypotheses on the state and the
 arguments each proof uses.  The calls it excludes are the ones for which the full statement is open or false:
 `addComponent` with caller-supplied ids for its network service / interfaces (false when they collide - known finding,
-see `addComponent_counterexample`), the composites `addFacility`/`addSwitch`,
-`disconnect` and all removals. -/
+see `addComponent_counterexample`), the composites `addFacility`/`addSwitch` and the removals
+`removeNode`, `removeFacility`, `removeSwitch`, `removeLink`, `removeService`, `nodeRemoveService`, `removeComponent`
+(they delete in several passes; `removeNode` can genuinely raise half-way, see the report). -/
 
 def FreshArgs (c : Nat) (s : Topo) (nid : Option Nid) : Prop :=
   (∀ m ∈ s.nodes, ∀ k, c ≤ k → m.nid ≠ .gen k) ∧ (∀ k, c ≤ k → nid ≠ some (.gen k))
@@ -225,6 +255,8 @@ def Covered : TopoOp → Topo → Prop
   | .connect _ c _ _ (.iface iid iname), s =>
       IdsDistinct s ∧ Closed s ∧ (∀ n ∈ s.nodes, n.nid = iid → n.cls = .connectionPoint) ∧
       (∀ m ∈ s.nodes, m.nid ≠ .gen c ∧ m.nid ≠ .gen (c + 1))
+  | .disconnect _ _, s => IdsDistinct s
+  | .nsRemoveInterface _ _ _, s => IdsDistinct s
   | .addComponent _ c _ a, s => FreshArgs c s a.nid ∧ a.ifNids = none ∧ a.nsNid = none
   | .addStorage _ c _ _ nid _, s => FreshArgs c s nid
   | .addService _ c a, s => IdsDistinct s ∧ Closed s ∧ FreshArgs c s a.nid ∧ IfsAll s (pick a.nid c).1 c a.ifs
@@ -261,8 +293,8 @@ theorem atomic_op (op : TopoOp) (s : Topo) (hcov : Covered op s) (hf : failed (s
   | addStorage fl c p n i pr =>
     obtain ⟨h1, h2⟩ := hcov
     exact FS_bind_pure (atomic_addStorage fl c p n i pr s h1 h2)
-  | nsRemoveInterface _ _ _ => exact hcov.elim
-  | disconnect _ _ => exact hcov.elim
+  | nsRemoveInterface fl svc n => exact FS_bind_pure (atomic_removeInterface fl svc n s hcov)
+  | disconnect ca i => exact FS_bind_pure (atomic_disconnectInterface ca i s hcov)
   | addFacility _ _ _ _ _ _ _ _ _ => exact hcov.elim
   | addSwitch _ _ _ _ _ _ _ _ => exact hcov.elim
   | removeNode _ => exact hcov.elim
